@@ -70,6 +70,27 @@ type Groups struct {
 	N *Leaf          `valid:"botheq=10,either=11"`
 }
 
+// Embedded structs, by pointer (possibly nil) and by value, with and without rules on the embedding field.
+type EmbPtr struct {
+	*Leaf
+	N int `valid:"required"`
+}
+
+type EmbVal struct {
+	Leaf
+	N int `valid:"le=3"`
+}
+
+type EmbDeep struct {
+	*EmbPtr
+	S string `valid:"required"`
+}
+
+type EmbRuled struct {
+	*Leaf `valid:"exist"`
+	X     *EmbVal `valid:"required"`
+}
+
 // NumGroups: botheq / either groups whose members are numbers of different families and widths.
 type NumGroups struct {
 	A int32   `valid:"botheq=1"`
@@ -103,6 +124,16 @@ func groupShapes() []shaped {
 		{"Groups{K,L}", &Groups{K: f, L: f}},
 		{"Groups{M,N}", &Groups{M: &Leaf{"x", 1}, N: &Leaf{"x", 1}}},
 		{"[]Groups", []Groups{{A: sl(), B: sl()}, {E: XI{mp()}, F: XI{mp()}}}},
+		{"EmbPtr{nil embedded}", &EmbPtr{}},
+		{"EmbPtr{embedded set}", &EmbPtr{Leaf: &Leaf{}, N: 1}},
+		{"EmbPtr by value", EmbPtr{}},
+		{"[]EmbPtr", []EmbPtr{{}, {Leaf: &Leaf{"x", 1}}}},
+		{"map[string]*EmbPtr", map[string]*EmbPtr{"a": {}, "b": nil}},
+		{"EmbVal{zero}", &EmbVal{}},
+		{"EmbDeep{nil}", &EmbDeep{}},
+		{"EmbDeep{->EmbPtr{nil}}", &EmbDeep{EmbPtr: &EmbPtr{}}},
+		{"EmbRuled{zero}", &EmbRuled{}},
+		{"EmbRuled{X set}", &EmbRuled{X: &EmbVal{}}},
 		{"NumGroups{zero}", &NumGroups{}},
 		{"NumGroups{all 1}", &NumGroups{A: 1, B: 1, C: 1, D: 1, E: 1, F: 1, G: 1, H: 1, I: true, J: "1"}},
 		{"NumGroups{different}", &NumGroups{A: -1, B: 1, C: 0.5, D: 2, E: 1 << 63, F: -1, G: 255, H: 255.5, I: true, J: "true"}},
